@@ -173,6 +173,8 @@ class Extractor:
             return float(r.as_fraction()) if hasattr(r, "as_fraction") else 0.0
         if isinstance(v, VNone):
             return None
+        if isinstance(v, E.VOpt):
+            return None if z3.is_true(self.ev(v.none)) else self.value(v.inner, depth)
         if isinstance(v, VTuple):
             return {"$tuple": [self.value(i, depth) for i in v.items]}
         if isinstance(v, VCList):
